@@ -343,6 +343,8 @@ pub struct Ctx {
     pub panic_only: bool,
     /// C09: W/L operands at odd addresses are checked as compositions of consecutive bytes
     pub strict_odd: bool,
+    /// attached to sequence counterexamples: how the generating unit can re-create this very program (replay with the unit's own oracles)
+    pub seq_tag: Option<Value>,
 }
 
 /// Built-in self-test of the comparison: perturb the reference for selected cases and require a mismatch.
@@ -382,6 +384,7 @@ impl Ctx {
             cycles_only: false,
             panic_only: false,
             strict_odd: false,
+            seq_tag: None,
         }
     }
 
@@ -920,6 +923,9 @@ impl Ctx {
         if self.st.violations.len() < MAX_VIOLATIONS_KEPT {
             let mut case = init.to_json();
             case["sequence"] = json!(trace);
+            if let Some(t) = &self.seq_tag {
+                case["regen"] = t.clone();
+            }
             let expected = ro.map(|r| self.expected_json(r)).unwrap_or(json!(null));
             let actual = match (ro, act) {
                 (Some(r), Some(a)) => self.actual_json(r, a),
